@@ -20,6 +20,9 @@ type Options struct {
 	// (delay bounding); otherwise only preemptions and early timers cost
 	// (preemption bounding) and switches away from a blocked thread are free.
 	DelayBounded bool
+	// NoEarlyClock never lets a timer fire while a thread is runnable (timers only
+	// fire at quiescence); for properties whose quantifier does not range over timer orders.
+	NoEarlyClock bool
 }
 
 // Violation is a failed oracle with the choice list that reproduces it.
@@ -205,6 +208,9 @@ func (x *explorer) explore(prefix, ns []int, depth int) {
 		if i >= len(prefix) {
 			for alt := 1; alt < c.N; alt++ {
 				if used+x.altCost(c, alt) > x.opts.Bound {
+					continue
+				}
+				if x.opts.NoEarlyClock && c.Kind == KindSched && alt == c.ClockAt {
 					continue
 				}
 				np := make([]int, i+1)
